@@ -405,7 +405,10 @@ Record CInv0 (sent : list pkt) (a : apc) (k : cons) : Prop := {
               c_prefill k ++ select (c_keep k) (window sent (c_regat k) (c_unregat k));
   ci_closes : (c_pc k = CDone -> c_closes k = 1) /\ (c_pc k <> CDone -> c_closes k = 0);
   (* on the exit path (parked at remove.loaded, or finished) the consumer is out of the map *)
-  ci_exit : c_pc k = CExitLoaded \/ c_pc k = CDone -> c_reg k = false
+  ci_exit : c_pc k = CExitLoaded \/ c_pc k = CDone -> c_reg k = false;
+  (* registered before the attach returns; nothing is handed over before the goroutine runs *)
+  ci_regat : a = A2 \/ a = ADone -> c_regat k <> None;
+  ci_out0 : c_pc k = CNone -> c_out k = []
 }.
 
 (* panic: once the n-th call of Consume has happened the goroutine is on its exit path *)
@@ -441,7 +444,7 @@ Ltac csimpl :=
        set_reg set_pc finish snapk with_qpc add_out cons0].
 
 Ltac cinv_break H :=
-  destruct H as [Hearly Hpc Ha1 Hreg Hunreg Halign Hlast Hpushed Hcloses Hexit].
+  destruct H as [Hearly Hpc Ha1 Hreg Hunreg Halign Hlast Hpushed Hcloses Hexit Hregat Hout0].
 
 (* ---- CInv0 ---- *)
 
@@ -451,6 +454,7 @@ Proof.
   - intros H. congruence.
   - exact I.
   - split; [discriminate|reflexivity].
+  - intros [E|E]; discriminate.
 Qed.
 
 Lemma cinv0_snap sent a k pre :
@@ -470,6 +474,8 @@ Proof.
   - rewrite E2, E4. simpl. now rewrite app_nil_r.
   - exact Hcloses.
   - exact Hexit.
+  - intros [E|E]; discriminate.
+  - exact Hout0.
 Qed.
 
 Lemma cinv0_queue sent k : CInv0 sent A0 k -> CInv0 sent A0W k.
@@ -478,6 +484,7 @@ Proof.
   - intros _. apply Hearly. unfold early; tauto.
   - intros Hne. specialize (Hpc Hne). discriminate.
   - discriminate.
+  - intros [E|E]; discriminate.
 Qed.
 
 Lemma cinv0_register sent k :
@@ -498,6 +505,8 @@ Proof.
   - exact Hcloses.
   - intros Hp. exfalso. assert (E : A1 = ADone); [|discriminate].
     apply Hpc. destruct Hp as [Hp|Hp]; rewrite Hp; discriminate.
+  - discriminate.
+  - exact Hout0.
 Qed.
 
 Lemma cinv0_unreg sent a k :
@@ -516,6 +525,8 @@ Proof.
   - rewrite window_unreg_now. rewrite E3 in Hpushed. exact Hpushed.
   - exact Hcloses.
   - reflexivity.
+  - exact Hregat.
+  - exact Hout0.
 Qed.
 
 Lemma cinv0_close sent a k : CInv0 sent a k -> CInv0 sent a (close_cons fixed k).
@@ -529,6 +540,7 @@ Proof.
     + apply Hc1. now apply (pc_step_done _ _ Hstep).
     + apply Hc2. intros E0. apply Hd. now apply (pc_step_done _ _ Hstep).
   - intros [Hp|Hp]; apply Hexit; [left; now apply (pc_step_exit _ _ Hstep)|right; now apply (pc_step_done _ _ Hstep)].
+  - intros E0. apply Hout0. now apply (pc_step_none _ _ Hstep).
 Qed.
 
 Lemma cinv0_send sent a k p :
@@ -558,6 +570,8 @@ Proof.
     + apply Hc1. now apply (pc_step_done _ _ Hstep).
     + apply Hc2. intros E0. apply Hd. now apply (pc_step_done _ _ Hstep).
   - intros [Hp|Hp]; apply Hexit; [left; now apply (pc_step_exit _ _ Hstep)|right; now apply (pc_step_done _ _ Hstep)].
+  - discriminate.
+  - intros E0. apply Hout0. now apply (pc_step_none _ _ Hstep).
 Qed.
 
 Lemma cinv0_grow sent a k p :
@@ -585,10 +599,11 @@ Proof.
   - intros Ea. specialize (Hpc L1). congruence.
   - split; [intros; congruence|]. intros _. now apply Hcloses.
   - intros [E|E]; congruence.
+  - congruence.
 Qed.
 
-Lemma cinv0_add_out sent a k p : CInv0 sent a k -> CInv0 sent a (add_out k p).
-Proof. intros H. cinv_break H. constructor; csimpl; auto. Qed.
+Lemma cinv0_add_out sent a k p : c_pc k <> CNone -> CInv0 sent a k -> CInv0 sent a (add_out k p).
+Proof. intros Hn H. cinv_break H. constructor; csimpl; auto. congruence. Qed.
 
 Lemma cinv0_done sent a k : a = A2 \/ a = ADone -> CInv0 sent a k -> CInv0 sent ADone k.
 Proof.
@@ -599,11 +614,12 @@ Qed.
 
 Lemma cinv0_set_pc sent k pc' :
   CInv0 sent ADone k -> c_pc k <> CDone -> pc' <> CDone -> (pc' = CExitLoaded -> c_reg k = false) ->
-  CInv0 sent ADone (set_pc k pc').
+  pc' <> CNone -> CInv0 sent ADone (set_pc k pc').
 Proof.
-  intros H Hd Hd' Hx. cinv_break H. constructor; csimpl; auto.
+  intros H Hd Hd' Hx Hn. cinv_break H. constructor; csimpl; auto.
   - split; [intros; congruence|]. intros _. now apply Hcloses.
   - intros [E|E]; [auto|congruence].
+  - congruence.
 Qed.
 
 Lemma cinv0_finish sent k :
@@ -612,6 +628,7 @@ Proof.
   intros H Hd Hr. cinv_break H. constructor; csimpl; auto.
   - discriminate.
   - split; [|congruence]. intros _. destruct Hcloses as [_ Hc]. now rewrite Hc.
+  - discriminate.
 Qed.
 
 Lemma cinv0_exit_path sent k :
@@ -619,7 +636,7 @@ Lemma cinv0_exit_path sent k :
   CInv0 sent ADone (exit_path fixed k (length sent)).
 Proof.
   intros H Hd. unfold exit_path. simpl. destruct (c_reg k) eqn:Hr.
-  - apply cinv0_set_pc; [now apply cinv0_unreg|exact Hd|discriminate|reflexivity].
+  - apply cinv0_set_pc; [now apply cinv0_unreg|exact Hd|discriminate|reflexivity|discriminate].
   - now apply cinv0_finish.
 Qed.
 
@@ -629,7 +646,7 @@ Lemma cinv0_loop_test sent k :
 Proof.
   intros H Hd. unfold loop_test. destruct (c_closed k).
   - now apply cinv0_exit_path.
-  - apply cinv0_set_pc; [assumption|assumption|discriminate|discriminate].
+  - apply cinv0_set_pc; [assumption|assumption|discriminate|discriminate|discriminate].
 Qed.
 
 (* ---- frames of the composite operations ---- *)
@@ -1123,7 +1140,7 @@ Proof.
   - (* CGot (Some p) *)
     assert (Hlt : 0 < n -> length (c_out k) < n).
     { intros Hn. destruct (HP Hn) as [?|(_ & [Hp|Hp] & _)]; [assumption|congruence|congruence]. }
-    assert (HC1 : CInv0 sent ADone (add_out k p)) by now apply cinv0_add_out.
+    assert (HC1 : CInv0 sent ADone (add_out k p)) by (apply cinv0_add_out; [congruence|assumption]).
     assert (Hpc1 : c_pc (add_out k p) <> CDone) by (csimpl; congruence).
     assert (HB1 : gap_ok G pkts = true -> BInv G sent (add_out k p)).
     { intros Hg. apply (binv_shrink G sent k); auto. }
